@@ -41,7 +41,10 @@ static size_t g_len; /* its length: g_str[g_len] is the first NUL */
 static size_t g_a0, g_a1, g_b0, g_b1, g_c0, g_c1;
 static size_t g_lead;            /* offset of the first non-zero mantissa digit (integer or fraction part), PN_N + 8 if there is none */
 static long g_pm;                /* mantissa digits alone denote a value in [10^pm, 10^(pm+1)) (when there is a non-zero digit) */
-static u128 g_P[PN_N + 2];       /* g_P[k], a0 <= k <= a1: value of the integer digits [a0,k) (stops growing beyond 2^100) */
+/* integer digits, counted from the first non-zero one (leading zeros do not change the value a digit string denotes):
+ * g_S[j], j <= 20: value of the first j significant integer digits modulo 2^64; g_over[j]: that value is 2^64 or more */
+static uint64_t g_S[22];
+static _Bool g_over[22];
 static long g_E[PN_N + 2];       /* g_E[k], c0 <= k <= c1: value of the exponent digits [c0,k) (stops growing beyond 10^9) */
 /* a value m has j decimal digits (j = 0: m == 0) exactly when g_lo[j] <= m <= g_hi[j] */
 static const uint64_t g_lo[21] = {0ull, 1ull, 10ull, 100ull, 1000ull, 10000ull, 100000ull, 1000000ull, 10000000ull, 100000000ull,
@@ -53,6 +56,8 @@ static const uint64_t g_hi[21] = {0ull, 9ull, 99ull, 999ull, 9999ull, 99999ull, 
 
 /* ---- vocabulary of the loop contracts (parsenumber.loops.json; they name locals of the lowered parseNumber) ------------ */
 #define OFF(p) ((size_t)__CPROVER_POINTER_OFFSET(p))
+/* number of significant integer digits among [a0,k) */
+#define SIG(k) ((k) > g_lead ? (k) - g_lead : (size_t)0)
 #define IN_STR(p, lo, hi) (__CPROVER_same_object((p), g_str) && OFF(p) >= (lo) && OFF(p) <= (hi))
 /* digits the mantissa must have when `rem` integer digits are still unread and the exponent offset is eo:
  * (digits - 1) + eo + rem == g_pm */
@@ -80,10 +85,8 @@ struct lit_info {
   _Bool lenient;    /* the same with digit groups allowed to be empty (still starting, after the sign, with a digit or '.') */
   _Bool neg;        /* leading '-' */
   _Bool is_integer; /* [+-]? digits */
-  _Bool vsat;       /* V stopped accumulating (more than 30 digits of magnitude) */
-  u128 V;           /* value of the integer-part digits */
-  _Bool prefixes_below_2_64; /* every prefix of the integer digits denotes a value below 2^64 (== V < 2^64: lemma h_lemma_prefixes) */
-  _Bool prefixes_upto_2_63;  /* ... at most 2^63 (== V <= 2^63) */
+  _Bool big;        /* the integer-part digits denote 2^64 or more */
+  uint64_t V;       /* value of the integer-part digits (when !big) */
   _Bool nonzero;    /* some mantissa digit is not 0, i.e. v != 0 */
   _Bool pow10;      /* the leading non-zero digit is 1 and every other mantissa digit is 0: |v| is a power of ten */
   long p;           /* 10^p <= |v| < 10^(p+1) when nonzero */
@@ -97,13 +100,10 @@ static void spec_scan(const char *s, size_t n, struct lit_info *o) {
   size_t a0 = (n > 0 && (s[0] == '+' || s[0] == '-')) ? 1 : 0;
   size_t a1 = 0, b0 = 0, b1 = 0, c0 = 0, c1 = 0, lead = PN_N + 8;
   unsigned ph = 1, nint = 0, nfrac = 0, nexp = 0, lead_digit = 0;
-  _Bool eneg = 0, rest = 0, vsat = 0, has_dot = 0, has_e = 0, f4 = 0, pre64 = 1, pre63 = 1;
+  _Bool eneg = 0, rest = 0, has_dot = 0, has_e = 0, f4 = 0;
   _Bool first_ok = a0 < n && ((s[a0] >= '0' && s[a0] <= '9') || s[a0] == '.');
-  /* running values: P of the integer digits read so far, E of the exponent digits read so far; stored once per position
-   * (unconditional stores keep the formula small) */
-  u128 P = 0;
+  /* running value E of the exponent digits read so far; stored once per position (unconditional stores keep the formula small) */
   long E = 0;
-  g_P[0] = 0;
   g_E[0] = 0;
   for (unsigned k = 0; k < PN_N; k++) {
     if (k >= a0 && k < n && ph != 5) {
@@ -114,10 +114,6 @@ static void spec_scan(const char *s, size_t n, struct lit_info *o) {
       if (ph == 1) {
         if (dig) {
           nint++; mant = 1;
-          if (P == 1844674407370955161ull && d >= 6) f4 = 1;
-          if (P >> 100) vsat = 1; else P = P * 10 + d;
-          if (P >> 64) pre64 = 0;
-          if (P > ((u128)1 << 63)) pre63 = 0;
         } else {
           a1 = k;
           if (dot) { has_dot = 1; b0 = k + 1; ph = 2; }
@@ -139,7 +135,6 @@ static void spec_scan(const char *s, size_t n, struct lit_info *o) {
         else if (d) rest = 1;
       }
     }
-    g_P[k + 1] = P;
     g_E[k + 1] = E;
   }
   /* the string ended inside a group */
@@ -148,6 +143,23 @@ static void spec_scan(const char *s, size_t n, struct lit_info *o) {
   else if (ph == 3) { c0 = c1 = n; }
   else if (ph == 4) { c1 = n; }
   g_a0 = a0; g_a1 = a1; g_b0 = b0; g_b1 = b1; g_c0 = c0; g_c1 = c1; g_lead = lead;
+  /* value of the integer digits: Horner from the first non-zero digit, at most 20 digits stay below 2^64 */
+  size_t nsig = a1 > lead ? a1 - lead : 0;
+  uint64_t S = 0;
+  _Bool over = 0;
+  g_S[0] = 0;
+  g_over[0] = 0;
+  for (unsigned j = 0; j < 20; j++) {
+    if (j < nsig) {
+      unsigned d = (unsigned)(s[lead + j] - '0');
+      if (S == 1844674407370955161ull && d >= 6) f4 = 1;
+      if ((((u128)S * 10 + d) >> 64) != 0) over = 1;
+      S = S * 10 + d;
+    }
+    g_S[j + 1] = S;
+    g_over[j + 1] = over;
+  }
+  if (nsig > 20) over = 1; /* 21 significant digits: at least 10^20 > 2^64 */
   _Bool nonzero = lead <= PN_N;
   /* index of the leading non-zero digit among the mantissa digits; 10^pm <= mantissa digits as a number with the point after nint digits */
   long lead_idx = !nonzero ? 0 : lead < a1 ? (long)(lead - a0) : (long)nint + (long)(lead - b0);
@@ -157,10 +169,8 @@ static void spec_scan(const char *s, size_t n, struct lit_info *o) {
   o->strict = o->lenient && nint + nfrac >= 1 && (!has_e || nexp >= 1);
   o->neg = neg;
   o->is_integer = first_ok && a1 == n && nint >= 1;
-  o->vsat = vsat;
-  o->V = g_P[a1];
-  o->prefixes_below_2_64 = pre64;
-  o->prefixes_upto_2_63 = pre63;
+  o->big = over;
+  o->V = S;
   o->nonzero = nonzero;
   o->pow10 = nonzero && lead_digit == 1 && !rest;
   o->p = g_pm + (eneg ? -E : E);
@@ -171,13 +181,9 @@ static void spec_scan(const char *s, size_t n, struct lit_info *o) {
 /* the property's range 1e-300 <= |v| <= 1e300 */
 static _Bool lit_above(const struct lit_info *o) { return o->nonzero && (o->p > 300 || (o->p == 300 && !o->pow10)); }
 static _Bool lit_below(const struct lit_info *o) { return !o->nonzero || o->p < -300; }
-/* an integer literal of [-2^63, 2^64).  Stated on the prefixes of the digit string: a digit string denotes a value below a
- * bound exactly when each of its prefixes does (appending a digit never decreases the value; mechanised: h_lemma_prefixes) */
+/* an integer literal of [-2^63, 2^64) */
 static _Bool lit_int_fits(const struct lit_info *o) {
-  return o->is_integer && (o->neg ? o->prefixes_upto_2_63 : o->prefixes_below_2_64);
-}
-static _Bool lit_int_fits_by_value(const struct lit_info *o) {
-  return o->is_integer && !o->vsat && (o->neg ? o->V <= ((u128)1 << 63) : o->V < ((u128)1 << 64));
+  return o->is_integer && !o->big && (!o->neg || o->V <= ((uint64_t)1 << 63));
 }
 static long spec_ndigits(uint64_t m) { /* decimal digits of m > 0 */
   long n = 0;
@@ -328,7 +334,7 @@ void h_int_exact(void) {
   pn_call(&c, 0);
   unsigned char t = c.r.type_;
   COVER(!c.li.neg && c.li.V == 0xffffffffffffffffull && c.n == PN_N); /* 2^64-1 behind leading zeros, full length */
-  COVER(c.li.neg && c.li.V == ((u128)1 << 63));
+  COVER(c.li.neg && c.li.V == ((uint64_t)1 << 63));
   COVER(c.li.neg && c.li.V == 0);
   COVER(c.s[0] == '+' && c.li.V == 77);
   COVER(c.n == 1);
@@ -355,8 +361,8 @@ void h_int_overflow_magnitude(void) {
   __CPROVER_assume(!c.li.f4_family);
 #endif
   pn_call(&c, CK_MAG);
-  COVER(!c.li.neg && c.li.V == ((u128)1 << 64) + 14);
-  COVER(c.li.neg && c.li.V == ((u128)1 << 63) + 1);
+  COVER(!c.li.neg && c.li.nint == 20 && c.s[c.n - 1] == '9' && c.s[0] == '1');
+  COVER(c.li.neg && !c.li.big && c.li.V == ((uint64_t)1 << 63) + 1);
   COVER(c.n == PN_N && c.s[0] == '9');
   pn_check_floating(&c, CK_MAG);
   pn_done(&c);
@@ -496,7 +502,7 @@ void h_long_zeros(void) {
   /* what it denotes: d x 10^(n-1) */
   memset(&c.li, 0, sizeof c.li);
   c.li.strict = c.li.lenient = c.li.is_integer = 1;
-  c.li.vsat = 1;
+  c.li.big = 1;
   c.li.nonzero = 1;
   c.li.pow10 = d == '1';
   c.li.p = (long)n - 1;
